@@ -546,9 +546,9 @@ fn events_background_lines_b() {
     kani::cover!(true, "reached");
 }
 
-// @verif property=C11,C06,C01 tier=quick timeout=1500 mem=16 bounds="[Events] background / video / sprite lines: 8 concrete lines x concrete previous background (precedence rule)"
+// @verif property=C11,C06,C01 tier=quick timeout=1500 mem=24 bounds="[Events] background / video / sprite lines: 8 concrete lines x concrete previous background (precedence rule)"
 oracle_proof!(c11_ev_background_a, 48, events_background_lines_a());
-// @verif property=C11,C06,C01 tier=quick timeout=1500 mem=16 bounds="[Events] other event types, malformed lines, video names without dot / with long extension / non-ASCII / shorter than 3 bytes: 8 concrete lines"
+// @verif property=C11,C06,C01 tier=quick timeout=1500 mem=24 bounds="[Events] other event types, malformed lines, video names without dot / with long extension / non-ASCII / shorter than 3 bytes: 8 concrete lines"
 oracle_proof!(c11_ev_background_b, 48, events_background_lines_b());
 
 /// Colours: R,G,B with optional ignored alpha; wrong field counts and bad numbers are rejected.
